@@ -25,7 +25,9 @@ Step(e) ==
          [v |-> V(<< <<IF r.ok THEN e.ok = 1 /\ e.off = r.off /\ e.len = r.len ELSE e.ok = 0, "cursor">> >>,
                   [ok |-> IF r.ok THEN 1 ELSE 0, off |-> st.pos, remaining |-> Len(st.input) - st.pos]),
           st |-> [st EXCEPT !.pos = r.pos]]
-    [] e.op = "df_hint" -> [v |-> V(<< <<e.res = SlHint(st.input, st.pos), "cursor">> >>, [res |-> SlHint(st.input, st.pos)]), st |-> st]
+    \* a size hint is a promise about how much can still be read: "unknown" (-1) or no more than what remains
+    \* (the allocation bound of C04 rests on it never exceeding the bytes available; exactness is not required)
+    [] e.op = "df_hint" -> [v |-> V(<< <<e.res = -1 \/ (e.res >= 0 /\ e.res <= SlHint(st.input, st.pos)), "cursor">> >>, [res_at_most |-> SlHint(st.input, st.pos)]), st |-> st]
     [] e.op = "df_fin" ->
          LET f == SlFinal(st.input, st.pos) IN
          [v |-> V(<< <<e.off = f.off /\ e.len = f.len, "cursor">> >>, f), st |-> st]
